@@ -64,8 +64,33 @@ def _case(draw, tier):
     return c
 
 
+@st.composite
+def _tie_case(draw, tier):
+    """lexicographic tie structures (C04's oracle-guided search) under a z3 back-end with a
+    per-query budget: every Optimize.check of such a query becomes a give-up point"""
+    from . import c04
+    c = dict(c04.search(draw(st.integers(0, 2**40))))
+    c.pop("tried", None)
+    qs = c["queries"]
+    seen, uq = set(), []
+    for q in qs:
+        t = json_key(q)
+        if t not in seen:
+            seen.add(t)
+            uq.append(q)
+    c["queries"] = uq[:3]
+    c.update({"cfg": draw(st.sampled_from(["lex-z3", "lex-z3", "w-z3"])), "weakly": draw(st.integers(0, 3)) == 0,
+              "budgets": {"total": 0, "pre": 0, "inf": draw(st.sampled_from([1, 2, 5, 60]))}, "parallel": False})
+    return c
+
+
+def json_key(q):
+    import json
+    return json.dumps(q[1:])
+
+
 def strategy(tier):
-    return _case(tier)
+    return st.one_of(_case(tier), _case(tier), _case(tier), _tie_case(tier))
 
 
 class VClock:
@@ -201,6 +226,8 @@ def run_case(case, ctx):
     out = []
     cfg = case["cfg"]
     ctx.stratum(f"cfg:{cfg}|weakly={case['weakly']}")
+    if case.get("searched"):
+        ctx.stratum("source:lex-tie-search")
     if case.get("parallel"):
         ctx.stratum("parallel")
     r0 = run_once(case, parts, {}, with_budgets=False)
@@ -272,5 +299,5 @@ def shrink(case):
 
 
 def required_strata(tier):
-    return ["injection:clock", "injection:unknown", "rows-flagged", "preprocessing-timed-out",
+    return ["source:lex-tie-search", "injection:clock", "injection:unknown", "rows-flagged", "preprocessing-timed-out",
             "mixed-flagged-and-answered", "parallel"] + [f"cfg:{c}|weakly={w}" for c, w in CFGS]
